@@ -489,6 +489,9 @@ def poolLine (rest : String) : String :=
         | ["v", c] => match c.toNat? with
           | some c => fin (PoolBan.vanish s c) "-"
           | none => (s, outs, true)
+        | ["e", p] => match p.toNat? with
+          | some p => fin (PoolBan.expire s p) "-"
+          | none => (s, outs, true)
         | ["d", p, ok] => match p.toNat? with
           | some p => fin (PoolBan.setDial s p (ok != "0")) "-"
           | none => (s, outs, true)
